@@ -501,6 +501,19 @@ fn main() {
                 let class = if allow_cse { format!("cse-history:{}", cse_family(&ctx)) } else { format!("{}:{}", why_family(&why), ctx_family(&ctx)) };
                 if !e { or.fail(&class, json!({"history": ops_json(&ops_done), "sheet": si}), format!("after {ctx} and evaluate: {why} on sheet {si} (large sheet)")); break 'hist; }
             }
+            // nothing is stale: a second evaluation changes no array value (histories without CSE arrays)
+            if !allow_cse {
+                let before: Vec<Vec<String>> = m.get_model().workbook.worksheets.iter().map(array_values).collect();
+                if catch_unwind(AssertUnwindSafe(|| m.evaluate())).is_err() { break 'hist; }
+                let after: Vec<Vec<String>> = m.get_model().workbook.worksheets.iter().map(array_values).collect();
+                or.checked += 1;
+                if before != after {
+                    let d = before.iter().flatten().zip(after.iter().flatten()).find(|(x, y)| x != y).map(|(x, y)| format!("{x} -> {y}")).unwrap_or_else(|| "cells appeared or vanished".into());
+                    or.fail(&format!("stale-until-reevaluated:{}", ctx_family(&ctx)), json!({"history": ops_json(&ops_done)}), format!("after {ctx}: a second evaluate changes array values: {d}"));
+                    break 'hist;
+                }
+            }
+            let model = m.get_model();
             // a typed input changes no other user content of its sheet
             if let (Some(bef), Op::Input { sheet, row, col, .. }) = (&before, &op) {
                 let aft = user_content(model, *sheet);
